@@ -2712,7 +2712,10 @@ fn render_table_row_vert<T: Write, D: TextDecorator>(
         children: row.into_cells(true),
         cons: Box::new(|builders, children| {
             let children: Vec<_> = children.into_iter().map(Option::unwrap).collect();
-            builders.append_vert_row(children)?;
+            // As for rows laid out side by side: a row without any content is not drawn.
+            if children.iter().any(|c| !c.empty()) {
+                builders.append_vert_row(children)?;
+            }
             pushed_style.unwind(builders);
             Ok(Some(None))
         }),
